@@ -12,3 +12,115 @@ def _(cov, mut, coverage, cn_solution):
     ensures(result == (passes(cov, mut, coverage.profile.cn_max)
                        and (mut.op == "_" or passes(cov, mut, copies_at(cn_solution, mut.pos) + 0.5))))
     modifies()
+
+
+def observed(gene, coverage, m):
+    """C02: an observed core variant - catalogued, function-altering, with filtered read support."""
+    return (m.pos, m.op) in gene.mutations and gene.is_functional((m.pos, m.op), True) and support(coverage, m) > 0
+
+
+def copies_of(cn_solution, allele_dict, an):
+    """number of copies of allele an's structural configuration in the gene structure"""
+    return cn_solution.solution[allele_dict[an].cn_config]
+
+
+def ncopies(cn_solution, allele_dict, an):
+    """candidate copies of an allele: the multiplicity of its configuration, at least one"""
+    return 1 if copies_of(cn_solution, allele_dict, an) < 1 else copies_of(cn_solution, allele_dict, an)
+
+
+def candidate_copy(cn_solution, allele_dict, an, i):
+    """one binary per (candidate allele, copy index below the multiplicity of its configuration; at least one)"""
+    return an in allele_dict and 0 <= i and (i == 0 or i < copies_of(cn_solution, allele_dict, an))
+
+
+def observed_copies(coverage, cn_solution, m):
+    """observed copy number of a variant: support / single-copy depth (0 where the structure has no copy)"""
+    return (0.0 if copies_at(cn_solution, m.pos) == 0
+            else support(coverage, m) / single_depth(coverage, cn_solution, m.pos, depth_at(coverage, m)))
+
+
+@contract("aldy.major.solve_major_model", external={"aldy.major._print_candidates": ""})
+def _(gene, coverage, cn_solution, allele_dict, solver, identifier, debug):
+    types(allele_dict="Dict[str, MajorAllele]", solver="str", identifier="int", debug="Optional[str]")
+    requires(cn_wf(cn_solution), gene_wf(gene), sameobj(cn_solution.gene, gene) or True)
+    # candidates come from the structure (estimate_major / _filter_alleles ensure both)
+    requires(forall(lambda an=str: implies(an in allele_dict, allele_dict[an].cn_config in cn_solution.solution
+                                           and an in gene.alleles
+                                           and gene.alleles[an].cn_config == allele_dict[an].cn_config
+                                           and gene.alleles[an].cn_config in gene.cn_configs)))
+    requires(forall(lambda an=str, m=Mutation: implies(an in allele_dict and m in allele_dict[an].func_muts,
+                                                       observed(gene, coverage, m))))
+    requires(forall(lambda c=str: implies(c in cn_solution.solution, cn_solution.solution[c] >= 0)))
+    # "_" is never a catalogued change (Gene invariant from process_mutation)
+    requires(forall(lambda p=int: (p, "_") not in gene.mutations))
+    requires(forall(lambda c=str, g=int, r=str: implies(c in gene.cn_configs and 0 <= g and g < len(gene.regions) and r in gene.regions[g],
+                                                        g < len(gene.cn_configs[c].cn) and r in gene.cn_configs[c].cn[g])))
+    requires(coverage.profile.major_novel >= 0)
+    cut_after("aldy.lpinterface.CBC.setObjective")
+
+    # ---------------------------------------------------------------- the specified model (C02)
+    # one binary per candidate allele copy; copies of one allele are used in index order
+    for an in allele_dict:
+        for i in range(0, ncopies(cn_solution, allele_dict, an)):
+            newvar(None, "B", None, None, f"A_{an}_{i}")
+            if i > 0:
+                family("CORD_{}_{}", newvar_at("A_{}_{}", an, i) <= newvar_at("A_{}_{}", an, i - 1))
+    obs = {Mutation(mk[0], mk[1]) for mk in gene.mutations if observed(gene, coverage, Mutation(mk[0], mk[1]))}
+    sites = obs | {Mutation(m.pos, "_") for m in obs}
+    for m in obs:
+        newvar(None, "C", -lp_inf(), lp_inf(), f"E_{m.pos}_{m.op}")
+        newvar(None, "B", None, None, f"N_{m}")
+        newvar(None, "B", None, None, f"OR_{m}")
+        newvar(None, "B", None, None, f"XOR_{m}")
+        carriers = 0.0 + sum(newvar_at("A_{}_{}", an, i)
+                             for an in allele_dict for i in range(0, ncopies(cn_solution, allele_dict, an))
+                             if m in allele_dict[an].func_muts)
+        # carried XOR novel: OR = (some selected copy carries m); XOR(N, OR) = 1
+        family("COR", newvar_at("OR_{}", m) <= carriers)
+        for an in allele_dict:
+            for i in range(0, ncopies(cn_solution, allele_dict, an)):
+                if m in allele_dict[an].func_muts:
+                    family("COR", newvar_at("OR_{}", m) >= newvar_at("A_{}_{}", an, i))
+        family("CXOR", newvar_at("XOR_{}", m) <= newvar_at("N_{}", m) + newvar_at("OR_{}", m))
+        family("CXOR", newvar_at("XOR_{}", m) <= 2 - newvar_at("N_{}", m) - newvar_at("OR_{}", m))
+        family("CXOR", newvar_at("XOR_{}", m) >= newvar_at("N_{}", m) - newvar_at("OR_{}", m))
+        family("CXOR", newvar_at("XOR_{}", m) >= newvar_at("OR_{}", m) - newvar_at("N_{}", m))
+        family("CXOR", newvar_at("XOR_{}", m) >= 1)
+    for p in {m.pos for m in obs}:
+        newvar(None, "C", -lp_inf(), lp_inf(), f"E_{p}_REF")
+        # at most one novel non-insertion variant per position
+        family("CONE_{}", 0.0 + sum(newvar_at("N_{}", m) for m in obs if m.pos == p and m.op[:3] != "ins") <= 1)
+    # fit equations: called copies (+ novel flag) + error = observed copies, for every observed core
+    # variant and for the reference allele at its position
+    for m in sites:
+        called = ((0.0 + sum(newvar_at("A_{}_{}", an, i)
+                             for an in allele_dict for i in range(0, ncopies(cn_solution, allele_dict, an))
+                             if gene.has_coverage(an, m.pos)
+                             and not any(x.pos == m.pos and x.op[:3] != "ins" for x in allele_dict[an].func_muts)))
+                  if m.op == "_" else
+                  (0.0 + sum(newvar_at("A_{}_{}", an, i)
+                             for an in allele_dict for i in range(0, ncopies(cn_solution, allele_dict, an))
+                             if m in allele_dict[an].func_muts) + newvar_at("N_{}", m)))
+        err = newvar_at("E_{}_REF", m.pos) if m.op == "_" else newvar_at("E_{}_{}", m.pos, m.op)
+        family("CFUNC_{}_{}", called + err <= observed_copies(coverage, cn_solution, m))
+        family("CFUNC_{}_{}", called + err >= observed_copies(coverage, cn_solution, m))
+        a = newvar(None, None, 0, lp_inf(), f"ABS_{lp_name(err)}")
+        family("CABSL_{}", a + err >= 0)
+        family("CABSR_{}", a - err >= 0)
+    # each structural configuration gets exactly as many alleles as the structure has copies of it
+    for cnf in cn_solution.solution:
+        sel = 0.0 + sum(newvar_at("A_{}_{}", an, i)
+                        for an in allele_dict for i in range(0, ncopies(cn_solution, allele_dict, an))
+                        if allele_dict[an].cn_config == cnf)
+        family("CSAT_{}", sel <= cn_solution.solution[cnf])
+        family("CSAT_{}", sel >= cn_solution.solution[cnf])
+    # novelty indicator and objective: fit error + major_novel * [any novel] + 0.1 * #novel
+    z = newvar(None, "B", None, None, "NOVEL")
+    for m in obs:
+        family("NOVEL_UB_{}", z >= newvar_at("N_{}", m))
+    family("NOVEL_LB", z <= 0.0 + sum(newvar_at("N_{}", m) for m in obs))
+    lp_setobjective(None, 0.0 + sum(newvar_at("ABS_{}", lp_name(newvar_at("E_{}_REF", m.pos) if m.op == "_" else newvar_at("E_{}_{}", m.pos, m.op)))
+                                    for m in sites)
+                    + coverage.profile.major_novel * z
+                    + 0.1 * (0.0 + sum(newvar_at("N_{}", m) for m in obs)))
